@@ -29,6 +29,11 @@ def check_text(L, s, strict, le):
         info = L.validate(s, strict=strict)
     except Exception as e:   # noqa
         return 'validate raised %s' % type(e).__name__, None, None
+    # a key listing of the same text between the two entry points (it parses non-strictly) must not matter
+    try:
+        L.unknown_license_keys(s)
+    except le.ExpressionError:
+        pass
     pv = parsing.parse_outcome(L, s, validate=True, strict=strict)
     pn = parsing.parse_outcome(L, s, validate=False, strict=strict)
     triple = [enc_opt(info.normalized_expression, enc_str), len(info.errors), [enc_str(x) for x in info.invalid_symbols]]
@@ -77,7 +82,7 @@ def run(rep, tier, seed):
     maxlen = 5 if tier == 'thorough' else 4
     cases = []
     for t in gen.token_strings(maxlen):
-        for st in (False, True):
+        for st in (True, False):
             cases.append((gen.TOKEN_TABLE, gen.render_tokens(t), st))
     ntab = 200 if tier == 'thorough' else 30
     for _ in range(ntab):
